@@ -10,6 +10,7 @@ import (
 	"sort"
 	"strings"
 
+	"go/token"
 	"golang.org/x/tools/go/ssa"
 )
 
@@ -365,6 +366,23 @@ func (x *Exec) evalIdent(env *SpecEnv, name string) SVal {
 		return SVal{VScalar{IntLitStr("9223372036854775807")}, untypedInt}
 	case "MinInt64":
 		return SVal{VScalar{IntLitStr("-9223372036854775808")}, untypedInt}
+	}
+	if name == "$range" && env.li != nil && env.fr != nil {
+		// the slice a "for ... := range <expr>" loop iterates over (evaluated once, before the loop)
+		for _, ins := range env.li.header.Instrs {
+			b, ok := ins.(*ssa.BinOp)
+			if !ok || b.Op != token.LSS {
+				continue
+			}
+			if c, ok := b.Y.(*ssa.Call); ok {
+				if bi, ok := c.Call.Value.(*ssa.Builtin); ok && bi.Name() == "len" && len(c.Call.Args) == 1 {
+					if v, has := env.fr.vals[c.Call.Args[0]]; has {
+						return SVal{v, goT(c.Call.Args[0].Type())}
+					}
+				}
+			}
+		}
+		sfail("$range: not a range-over-slice loop")
 	}
 	if strings.HasPrefix(name, "$") {
 		if v, ok := env.st.ghost[name]; ok {
